@@ -632,7 +632,12 @@ def dimer(ctx, certified, replay_for, f_dim, thorough):
                     ctx.prove(lab + "none_only_if_elements_differ" + ps, r.pc, z3.Not(same), clause="transform_ab is None only when the element lists differ", replay=rp, fn=f_dim)
                     continue
                 if not (isinstance(t, tuple) and len(t) == 2 and len(lg) == 1 and isinstance(t[0], NDArr) and isinstance(t[1], NDArr)):
-                    ctx.prove(lab + "pair" + ps, r.pc, z3.BoolVal(False), clause="transform_ab == (R, v_ab) after one call of kabsch_rotation_matrix", replay=rp, fn=f_dim)
+                    # with a transform left by an earlier calculation in place: if the very object that was stored comes back and no rotation was computed, the result
+                    # depends on the history of the object -- that is the verdict, not a limitation of the symbolic run
+                    kept_stale = bool(stale and isinstance(t, tuple) and len(t) == 2 and t[0] is STALE[0] and not lg)
+                    ctx.prove(lab + "pair" + ps, r.pc, z3.BoolVal(False), clause="transform_ab == (R, v_ab) after one call of kabsch_rotation_matrix" +
+                              (" (an earlier stored transform was returned unchanged, nothing was computed)" if kept_stale else ""), replay=rp, fn=f_dim,
+                              **({"structural": False} if kept_stale else {}))
                     continue
                 seen["some"] = True
                 R, v = t
